@@ -2,7 +2,8 @@
 From Coq Require Import String.
 From Boltons Require Import Lib.Prelude Lib.C07_Str Spec.C07_Spec Gen.C07_Gen Model.C07_Model
      Proofs.C07_StrLemmas Proofs.C07_Rds Proofs.C07_Resolve Proofs.C07_Parse Proofs.C07_Navigate
-     Proofs.C07_Text Proofs.C07_RfcExamples Gen.C07_Src Proofs.C07_SrcEq.
+     Proofs.C07_Text Proofs.C07_RfcExamples Gen.C07_Src Proofs.C07_SrcEq Check.C07_Check
+     Proofs.C07_Refine Proofs.C07_RoundTrip.
 Open Scope N_scope.
 Open Scope list_scope.
 
@@ -115,18 +116,68 @@ Theorem C07_navigate_clean : forall b r, wf_base b -> wf_ref r ->
 Proof. exact navigate_clean. Qed.
 Print Assumptions C07_navigate_clean.
 
-(* chained navigation equals resolving step by step *)
-Theorem C07_chain : forall b r1 r2, wf_base b -> wf_ref r1 -> wf_ref r2 ->
-  spec_chain (to_text b) (to_text r1) (to_text r2)
-             (to_text (navigate_rel (navigate_rel b r1) r2)) = true.
-Proof. exact navigate_chain. Qed.
+(* chained navigation equals resolving step by step (each destination a
+   relative reference or an absolute URL) *)
+Theorem C07_chain : forall b d1 d2, wf_base b -> wf_ref d1 \/ wf_base d1 -> wf_ref d2 \/ wf_base d2 ->
+  spec_chain (to_text b) (to_text d1) (to_text d2)
+             (to_text (navigate_url (navigate_url b d1) d2)) = true.
+Proof. exact navigate_url_chain. Qed.
 Print Assumptions C07_chain.
 Example C07_chain_ex :
   wf_base ex_base /\ wf_ref ex_ref1 /\ wf_ref ex_ref2 /\
-  to_text (navigate_rel (navigate_rel ex_base ex_ref1) ex_ref2) = codes "http://u:p@h.x:8080/z/".
+  to_text (navigate_url (navigate_url ex_base ex_ref1) ex_ref2) = codes "http://u:p@h.x:8080/z/".
 Proof.
   split; [exact ex_base_wf|]. split; [exact ex_ref1_wf|]. split; [exact ex_ref2_wf|].
   vm_compute. reflexivity.
+Qed.
+
+(* normalize() of an absolute URL is RFC 3986 6.2.2.3 (and idempotent) *)
+Theorem C07_normalize_rfc : forall b, wf_base b ->
+  spec_normalized (to_text b) (to_text (normalize b)) (to_text (normalize (normalize b))) = true.
+Proof. exact normalize_spec. Qed.
+Print Assumptions C07_normalize_rfc.
+
+(* ---- refinement: the model's whole observation satisfies the checked predicate ---------------
+   c07_holds is, verbatim, what the correspondence run evaluates on the
+   IMPLEMENTATION's observation (target URI, no dot segments, rooted, base and
+   first result unchanged, chaining, normalize).  For all well-formed URL
+   objects the model's observation satisfies it; hence on every case where the
+   run finds model = implementation the statement holds of the code.
+   (The "base object is left unmodified" clause is trivial for a pure model; on
+   the code it is observed after mutating every container of the results.)      *)
+Theorem C07_model_satisfies_spec : forall b d1 d2 f1 f2,
+  wf_base b -> wf_ref d1 \/ wf_base d1 -> wf_ref d2 \/ wf_base d2 ->
+  c07_holds (mkCase (to_text b) (to_text d1) f1 (to_text d2) f2 (record_obs b d1 d2)) = true.
+Proof. exact model_observation_satisfies_spec. Qed.
+Print Assumptions C07_model_satisfies_spec.
+
+(* URL(text) gives back the object that was printed (model of URL.__init__ /
+   parse_url / parse_qsl on the plain-text domain), so the objects quantified
+   over above are exactly what URL() builds from their texts *)
+Theorem C07_round_trip_ref : forall d, wf_ref_text d -> url_of_text (to_text d) = Some d.
+Proof. exact ref_round_trip. Qed.
+Print Assumptions C07_round_trip_ref.
+Theorem C07_round_trip_base : forall b, wf_base_text b -> url_of_text (to_text b) = Some b.
+Proof. exact base_round_trip. Qed.
+Print Assumptions C07_round_trip_base.
+
+(* the same on TEXTS: for every base text and destination texts in the URL
+   type's normal form, the model run by the checker (c07_model: URL(text),
+   navigate, navigate, normalize, to_text) produces an observation, and it
+   satisfies c07_holds *)
+Theorem C07_refinement : forall b d1 d2 f1 f2 o0,
+  wf_base_text b -> dest_text_ok d1 -> dest_text_ok d2 ->
+  exists o, c07_model (mkCase (to_text b) (to_text d1) f1 (to_text d2) f2 o0) = Some o /\
+            c07_holds (mkCase (to_text b) (to_text d1) f1 (to_text d2) f2 o) = true.
+Proof. exact model_on_texts_satisfies_spec. Qed.
+Print Assumptions C07_refinement.
+Example C07_refinement_ex :
+  wf_base_text ex_base /\ dest_text_ok ex_ref1 /\ dest_text_ok ex_ref2 /\ dest_text_ok ex_abs /\
+  to_text ex_base = ex_base_t /\ to_text ex_ref1 = ex_ref1_t /\ to_text ex_ref2 = ex_ref2_t.
+Proof.
+  split; [exact ex_base_text_ok|]. split; [left; exact ex_ref1_text_ok|].
+  split; [left; exact ex_ref2_text_ok|]. split; [right; exact ex_abs_text_ok|].
+  vm_compute. repeat split; reflexivity.
 Qed.
 
 (* ---- navigate called with a reference TEXT (str or URL object built from it) ----------------
